@@ -390,6 +390,31 @@ func execBadDoc(c *Sx, env *execEnv) (*Sx, []Violation) {
 			rep("diff-partial-report-with-stop", "diff reports changes although a severe error occurred with stop-on-first-error")
 		}
 	}
+	// an unreadable file in each of the two directories (two different files): each side's reading errors are reported
+	if !stop && base.ok {
+		e1, e2 := caseDir(env, args[0].A+"e"), caseDir(env, args[0].A+"f")
+		notYAML := []byte("kind: [\n\tthis: is: not yaml {\n")
+		if buildDirty(e1, good, nil) == nil && buildDirty(e2, good, nil) == nil &&
+			os.WriteFile(filepath.Join(e1, "zz-broken-one.yaml"), notYAML, 0o644) == nil && os.WriteFile(filepath.Join(e2, "zz-broken-two.yaml"), notYAML, 0o644) == nil {
+			da := diff.NewDiffAnalyzer(dopts...)
+			var derr error
+			if p := guarded("diff", func() { _, derr = da.ConnDiffFromDirPaths(e1, e2) }); p != "" {
+				rep("panic", p)
+			} else if derr == nil {
+				for _, f := range []string{"zz-broken-one.yaml", "zz-broken-two.yaml"} {
+					named := false
+					for _, e := range da.Errors() {
+						if strings.Contains(e.Error().Error(), f) {
+							named = true
+						}
+					}
+					if !named {
+						rep("bad-doc-not-reported-by-diff", "each directory holds one unreadable file; diff Errors() does not name "+f)
+					}
+				}
+			}
+		}
+	}
 	env.nontr[fmt.Sprint(args[2:])+res.String()] = true
 	// the analyzer is an object a caller may use again: what the bad documents of this directory left in it must not decide
 	// the analysis of the next one (the clean directory, analysed again with the same analyzer)
